@@ -290,8 +290,10 @@ def run(ctx):
                    'steps': [{'as': 'r', 'call': 'engine.replayfn.escape_check', 'args': [kind, mode, s, flags, res['witness']]}],
                    'assert': f'r == {not res.get("impl")!r}'}
         common.confirm(ctx, rep)
+    walk = walk_side(ctx)
     ctx.coverage.update({
-        'evaluations': q['sat'] + q['unsat'] + q['unknown'], 'distinct_nontrivial': len(distinct),
+        'walk_side': {k: walk[k] for k in ('evaluations', 'distinct_nontrivial', 'combos', 'solver_calls', 'traces_validated_against_impl', 'samples')},
+        'evaluations': q['sat'] + q['unsat'] + q['unknown'] + walk['evaluations'], 'distinct_nontrivial': len(distinct) + walk['distinct_nontrivial'],
         'rule': 'one obligation per (kind, mode, string, flag subset): language of the real compile(escape(s)) (or of a non-magic p) == the '
                 'equivalence class of the literal; distinct = discharged obligations (all are non-trivial: the language is a non-empty singleton class)',
         'samples': samples, 'kinds': kinds, 'obligations': len(results), 'queries': q, 'solver_time_s': round(solver_s, 2),
@@ -315,3 +317,19 @@ def classify_known(res):
         # `$` inside _NO_DIR / path fragments also matches before a trailing newline (listed under C02)
         return 'trailing-newline-dollar'
     return None
+
+
+def walk_side(ctx):
+    """E3: glob(glob.escape(path)) on symbolic trees whose entry names contain metacharacters and backslashes."""
+    from engine import fsdriver
+    from wcmatch import glob as G
+    combos = []
+    for f in (0, G.EXTGLOB | G.BRACE | G.SPLIT | G.GLOBSTAR, G.NEGATE | G.MINUSNEGATE | G.EXTGLOB, G.DOTGLOB | G.GLOBSTAR | G.GLOBTILDE):
+        for t in ('meta', 'hid', 'nonascii', 'flat') if ctx.quick else ('meta', 'hid', 'hid2', 'nonascii', 'flat', 'nest', 'case', 'dotlink'):
+            combos.append(('c09fs', t, (f,)))
+    saved = ctx.coverage
+    ctx.coverage = {}
+    fsdriver.run_property(ctx, combos, None, 3000 if ctx.quick else 60000, lambda p: f'flags={p[0]:#x}', known_from=('C09',))
+    walk = ctx.coverage
+    ctx.coverage = saved
+    return walk
